@@ -244,6 +244,37 @@ fn records() -> Vec<Option<Enr>> {
     vec![None, Some(minimal), big]
 }
 
+/// Valid signed records whose encoding is exactly `len` bytes (None if no padding hits it): a
+/// record from the builder (which stops a few bytes short of the 300-byte limit), grown by
+/// re-signing with one more key/value pair.
+fn record_of_len(keyno: u16, len: usize) -> Option<Enr> {
+    let k = util::key(keyno);
+    for base_pad in [100usize, 101, 60] {
+    let base = util::try_enr(&k, &util::EnrSpec { seq: 1, ip4: Some((Ipv4Addr::new(10, 1, 2, 3), 30303)), ip6: None, pad: base_pad })?;
+    for extra in 0..200usize {
+        let mut r = base.clone();
+        let bytes = vec![0xcdu8; extra];
+        if let Err(e) = r.insert("q", &&bytes[..], &k) {
+            if std::env::var("VERIF_DEBUG").is_ok() {
+                eprintln!("insert failed at extra {extra}: {:?}", e);
+            }
+            break;
+        }
+        let l = alloy_rlp::encode(&r).len();
+        if std::env::var("VERIF_DEBUG").is_ok() {
+            eprintln!("extra {extra} -> {l}");
+        }
+        if l == len {
+            return Some(r);
+        }
+        if l > len {
+            break;
+        }
+    }
+    }
+    None
+}
+
 pub fn run_c05() {
     let mut rep = Report::new("C05", "exploration");
     let thorough = rep.thorough();
@@ -708,6 +739,11 @@ fn rpc_messages(thorough: bool) -> Vec<v::Message> {
         util::enr(&util::key(11), &util::EnrSpec { seq: 3, ip6: Some((Ipv6Addr::new(0x2001, 0xdb8, 0, 0, 0, 0, 0, 1), 7)), pad: 120, ..Default::default() }),
         records()[2].clone().unwrap(),
     ];
+    // the size boundary exactly: records of 298, 299 and 300 bytes (300 is the maximum a record may have)
+    let boundary: Vec<Enr> = [298usize, 299, 300].iter().filter_map(|l| record_of_len(12, *l)).collect();
+    if boundary.len() != 3 {
+        mc::machinery("could not build records of exactly 298 / 299 / 300 bytes");
+    }
     let payloads: Vec<Vec<u8>> = vec![vec![], vec![0x05], vec![0x80], vec![0xff], vec![7; 55], vec![7; 56], vec![7; 1000]];
     let dist_alpha: Vec<u64> = vec![0, 1, 127, 128, 255, 256];
     let mut out = vec![];
@@ -763,6 +799,11 @@ fn rpc_messages(thorough: bool) -> Vec<v::Message> {
             }
         }
     }
+    for b in &boundary {
+        out.push(v::Message::Response(v::Response { id: rid(&ids[1]), body: v::ResponseBody::Nodes { total: 1, nodes: vec![b.clone()] } }));
+        out.push(v::Message::Response(v::Response { id: rid(&ids[2]), body: v::ResponseBody::Nodes { total: 2, nodes: vec![recs[0].clone(), b.clone(), recs[1].clone()] } }));
+    }
+    out.push(v::Message::Response(v::Response { id: rid(&ids[3]), body: v::ResponseBody::Nodes { total: 1, nodes: boundary.clone() } }));
     for id in &ids {
         for p in &payloads {
             for q in &payloads {
@@ -876,6 +917,29 @@ pub fn run_c06() {
         let mut items = vec![id9];
         items.extend(tailfields.clone());
         st.must_reject(&wrap(ty, &items), "rejects request ids longer than 8 bytes", &format!("id9:{ty}"));
+        // the bound is on the length of the id as sent, whatever its content (leading zeros,
+        // all zeros, all ones) and however much longer it is
+        let long_ids: Vec<Vec<u8>> = vec![
+            vec![0, 1, 2, 3, 4, 5, 6, 7, 8],
+            vec![0; 9],
+            vec![0, 0, 0, 0, 0, 0, 0, 0, 1],
+            vec![0xff; 9],
+            vec![0; 12],
+            vec![0, 0, 0, 0, 1, 2, 3, 4, 5, 6, 7, 8],
+            vec![7; 16],
+            vec![0; 33],
+        ];
+        for (j, id) in long_ids.iter().enumerate() {
+            let mut items = vec![rlp_bytes(id)];
+            items.extend(tailfields.clone());
+            st.must_reject(&wrap(ty, &items), "rejects request ids longer than 8 bytes", &format!("id-long:{ty}:{j}"));
+        }
+        // ... and ids of exactly 8 bytes are fine, leading zeros included
+        for id in [vec![0u8; 8], vec![0, 1, 2, 3, 4, 5, 6, 7], vec![0xff; 8]] {
+            let mut items = vec![rlp_bytes(&id)];
+            items.extend(tailfields.clone());
+            st.consistent(&wrap(ty, &items), &format!("id8:{ty}"));
+        }
         // extra field inside the list
         let mut items = vec![id1.clone()];
         items.extend(tailfields.clone());
